@@ -139,15 +139,21 @@ theorem no_function_writes_package_level_state :
     Gen.Footprints.all.all (fun a => a.globalsWritten.isEmpty && a.exposesGlobals.isEmpty && !a.unknownWrites) = true := by
   decide +kernel
 
-/-- Package-level variables are stored to by package initialisation only (read-only tables). -/
+/-- Package-level variables are stored to by package initialisation only (read-only tables): no store site
+outside the functions that can only run during package initialisation (`pkg.init`, declared `init()`s and
+unexported helpers all of whose callers are such; listed in `initialisationOnly`). Initialisation happens
+before any goroutine of the user can call into the package. -/
 theorem package_level_variables_read_only : globals.all (fun g => g.2 == 0) = true := by decide
 
 /-- The library starts no goroutine; the only channel operations are on a channel handed in by the caller
 (`AllMaximalCliques` sends on and closes its parameter). -/
 theorem no_goroutines_no_own_channels : goStatements.isEmpty = true ∧ channelOpsNotOnParameter.isEmpty = true := by decide
 
-/-- The module imports neither `unsafe`, `reflect`, `runtime` nor cgo (memory the region analysis could not
-follow) and neither `sync` nor `sync/atomic` (no deliberately shared state). -/
+/-- The module imports neither `unsafe`, `reflect`, `runtime`, `sync/atomic` nor cgo (memory the region
+analysis could not follow) and uses nothing of package `sync` except `sync.Pool` (a value obtained from
+`Get` is owned by the caller until `Put`, the pool's own state is synchronised by the standard library:
+`extract_fp` treats `Get` as fresh memory and lists the packages in `syncPoolUsers`). `sync.Mutex` & co. are
+still reported: a hand-rolled synchronised cache is *not* recognised as safe by this analysis. -/
 theorem no_unsafe_reflect_sync : specialImports.isEmpty = true := by decide
 
 /-! ### The property for the library's scenarios -/
